@@ -218,7 +218,11 @@ def install(interp, lnet):
         e = env
         while e is not None and e.func is None:
             e = e.parent
-        if e is None or (e.func.alias or e.func.qualname) not in quals:
+        if e is None:
+            return None
+        q = e.func.alias or e.func.qualname
+        # the layout functions, and any helper of the same module they are split into
+        if q not in quals and not (e.module is mod and e.func.name != "_filter_vars" and e.func.cls is None):
             return None
         return AList(value) if kind == "list" else ADict(value)
 
@@ -390,10 +394,15 @@ def layout_task(compact, more_out, with_params, symtype, derived):
         except PyRaise as e:
             c.oblige("safe", f"compiling an initialised and stepped network raises nothing ({e.exc.cls_name}: {str(e.exc.args)[:120]})", T.FALSE, assume_after=False)
             return
-        good = isinstance(F, Captured) and all(isinstance(x, AList) for x in (F.ins, F.outs, F.names_in, F.names_out))
-        c.oblige("post", "to_function returns the casadi.Function built from the gathered names and values", T.const(good), assume_after=False)
-        if not good:
+        c.oblige("post", "to_function returns the casadi.Function it builds", T.const(isinstance(F, Captured)), assume_after=False)
+        if not isinstance(F, Captured):
             return
+        for attr in ("ins", "outs", "names_in", "names_out"):
+            x = getattr(F, attr)
+            if isinstance(x, (list, tuple)):
+                setattr(F, attr, AList(list(x)))
+            elif not isinstance(x, AList):
+                raise Unsupported(f"the {attr} of casadi.Function are given as a {type(x).__name__}: outside the modelled ways of building them")
         if compact <= 0:
             check_compact0(c, net, F, params, more_out)
         else:
